@@ -591,6 +591,21 @@ class _Expr:
             if lk in ('seq', 'tup', 'list') or rk in ('seq', 'tup', 'list'):
                 ls, le = self.seqterm(st, l, node)
                 rs, re_ = self.seqterm(st, r, node)
+                if le != re_ and {le.kind, re_.kind} == {'obj', 'seq'} and self.proc.locals.get('$lists_of_lists'):
+                    # [[x]] + [seq, ...]: a list whose elements are lists/tuples themselves, concatenated with a sequence of
+                    # sequences: lift the object elements to the sequences they hold (a list by its current content)
+                    def lift(sq):
+                        r_ = fresh('lifted', SSO)
+                        j = z3.Int('lf_j')
+                        st.assume(Length(r_) == Length(sq))
+                        st.assume(z3.ForAll([j], z3.Implies(z3.And(0 <= j, j < Length(sq)), r_[j] == z3.If(
+                            is_seq(sq[j]), unbox_seq(sq[j]), self.listval(st, sq[j]))), patterns=[r_[j]]))
+                        return r_
+                    if le.kind == 'obj':
+                        ls, le = lift(ls), re_
+                    else:
+                        rs, re_ = lift(rs), le
+                    return V(SEQ(le), Concat(ls, rs))
                 if le != re_:
                     raise Unsupported(node, 'concat of %r and %r' % (l.ty, r.ty))
                 if lk == 'list' or rk == 'list':
